@@ -1,4 +1,5 @@
 //! Runtime-monitoring harness for rust-vmm/acpi_tables (see /verif/DESIGN.md).
+pub mod amlref;
 pub mod engines;
 pub mod json;
 pub mod prng;
